@@ -617,7 +617,7 @@ func runLint(which string) {
 		}
 	case "L19":
 		sites, hits = montgomeryLimbReads(fns)
-	case "SCAN", "ABS", "ZEROUSE", "ARRIDX", "WIDTH", "SUBALIAS", "ASMBOUNDS":
+	case "SCAN", "ABS", "ZEROUSE", "ARRIDX", "WIDTH", "SUBALIAS", "ASMBOUNDS", "DEAD":
 		registerScanProgram(p)
 		re := regexp.MustCompile(os.Getenv("GCV_FUNCS"))
 		for _, fn := range fns {
@@ -632,6 +632,8 @@ func runLint(which string) {
 				if fn.Parent() == nil && fn.Object() != nil && fn.Object().Exported() {
 					n, h = subObjectHazards(p, sharedEffects(p), fn)
 				}
+			} else if which == "DEAD" {
+				n, h = deadAccumulators(p, fn)
 			} else if which == "ASMBOUNDS" {
 				n, h = asmCallBounds(p, fn)
 			} else if which == "WIDTH" {
